@@ -222,6 +222,43 @@ def generate(rng, tier):
                          ("cubic-imag-d", [complex(0, g.range(-5, 5) or 1), 0j, 0j, complex(g.range(1, 4), 0)]),
                          ("linear-cplx", [w, z])]:
             both(cases, 'cplx', co, "closed-" + name)
+    # --- closed forms with coefficient magnitudes up to ratio 1e6 and every phase pattern (real-, imaginary-dominated)
+    g = rng.fork("closed-scaled")
+    reps = 40 if quick else 500
+    def ph(g, mag):
+        k = g.below(5)
+        x = (1.0 + g.below(9)) * mag * (1 if g.chance(1, 2) else -1)
+        y = (1.0 + g.below(9)) * mag * (1 if g.chance(1, 2) else -1)
+        if k == 0: return complex(x, 0.0)
+        if k == 1: return complex(0.0, y)
+        if k == 2: return complex(x, y * 1e-6)
+        if k == 3: return complex(x * 1e-6, y)
+        return complex(x, y)
+    for t in range(reps):
+        deg = 2 + (t % 2)
+        mags = [10.0 ** g.range(-3, 3) for _ in range(deg + 1)]
+        lo = max(mags) / 1e6
+        co = [ph(g, max(m, lo)) for m in mags]
+        if g.chance(1, 5): co[g.below(deg)] = 0j
+        if all(c.imag == 0 for c in co): both(cases, 'f64', [c.real for c in co], "closed-scaled-real")
+        else: both(cases, 'cplx', co, "closed-scaled-cplx")
+    # --- sparse polynomials x^n + a x^k + b (vanishing inner coefficients), real and complex
+    g = rng.fork("sparse")
+    reps = 4 if quick else 40
+    for deg in range(4, 13):
+        for t in range(reps):
+            k = g.range(1, deg - 1)
+            a = float(g.choice([1, 2, 3, 10, 100, 1000])) * (1 if g.chance(1, 2) else -1) * (10.0 ** g.range(0, 3) if g.chance(1, 3) else 1.0)
+            b = float(g.choice([1, 2, 5, 32, 100])) * (1 if g.chance(1, 2) else -1)
+            lead = float(g.choice([1, 1, 2, 5]))
+            if max(abs(a), abs(b), lead) > 1e6 * min(abs(a), abs(b), lead): a = 1000.0
+            co = [0.0] * (deg + 1); co[deg] = lead; co[0] = b
+            if g.chance(3, 4): co[k] = a
+            if g.chance(1, 3):
+                cz = [complex(x) for x in co]; cz[0] = complex(0.0, b) if g.chance(1, 2) else complex(b, b)
+                both(cases, 'cplx', cz, "sparse-cplx")
+            else:
+                both(cases, 'f64', co, "sparse-real")
     # --- degree 0 must be rejected; the empty coefficient list panics too (tie only)
     for co in ([1.0], [0.0], [-2.5]):
         both(cases, 'f64', co, "degree0")
@@ -245,8 +282,8 @@ def case_from_json(j):
 FAILS = {}        # case line -> failure kind (read by finding_key)
 FAILED_CASES = {} # case line -> case, every input the oracle rejected (their model traces are computed in one batch)
 
-def fail(case, kind, text):
-    FAILS[case.line] = kind
+def fail(case, kind, text, root=None):
+    FAILS[case.line] = (kind, root)
     FAILED_CASES[case.line] = case
     return kind + ": " + text
 
@@ -271,7 +308,7 @@ def oracle(case, items):
         return fail(case, "count", "%d values returned for a polynomial of degree %d" % (len(roots), n))
     bad = [k for k, z in enumerate(roots) if not (math.isfinite(z.real) and math.isfinite(z.imag))]
     if bad:
-        return fail(case, "non-finite", "root %d of %d is not finite: %r (refine=%s, coefficients %r)" % (bad[0], n, roots[bad[0]], refine, coeffs))
+        return fail(case, "non-finite", "root %d of %d is not finite: %r (refine=%s, coefficients %r)" % (bad[0], n, roots[bad[0]], refine, coeffs), root=bad[0])
     theta = Fraction(THETA_POLISHED if refine else THETA_UNPOLISHED)
     amax = max(fabs2(cfrac(c)) for c in coeffs)      # (max |a_k|)^2
     worst = None
@@ -284,7 +321,7 @@ def oracle(case, items):
             if worst is None or be > worst[1]: worst = (k, be)
     if worst:
         return fail(case, "backward-error", "root %d = %r has |p(z)| / (max|a_k| max(1,|z|)^n) = %.3g > %g (degree %d, refine=%s, coefficients %r)" % (
-            worst[0], roots[worst[0]], worst[1], float(theta), n, refine, coeffs))
+            worst[0], roots[worst[0]], worst[1], float(theta), n, refine, coeffs), root=worst[0])
     # one-to-one correspondence with well-separated, well-conditioned prescribed roots
     if "prescribed" in m:
         pres = [(Fraction(x), Fraction(y)) for x, y in m["prescribed"]]
@@ -327,7 +364,7 @@ def traces_for_failures(cases_by_line):
     for i, (ln, c) in enumerate(todo):
         TRACES[ln] = res.get("k%d" % i)
 
-def classify(case, items, kind):
+def classify(case, items, kind, root=None):
     """the key of DESIGN section 7/C10 for a failing input, or None.  Decided by the model's trace, and only
     if the model reproduces the implementation's answer bit for bit on this very input."""
     global TRACES
@@ -336,7 +373,7 @@ def classify(case, items, kind):
         traces_for_failures(FAILED_CASES)
     zs = TRACES.get(case.line)
     if not zs: return None
-    bits, tr = parse_trace(zs)
+    bits, tr, cancels = parse_trace(zs)
     if bits is None: return None                      # model panicked / oracle miss: broken tie, no key
     a = parse_answer(items)
     if a["panic"] is not None: return None
@@ -346,19 +383,38 @@ def classify(case, items, kind):
     n = len(coeffs) - 1
     refine = m["refine"]
     if kind == "count": return None
-    polish = tr[n:] if n >= 4 else tr                 # degree >= 4: n deflation calls come first
-    if kind == "non-finite" and refine and coeffs[0] == 0 and any(t[2] == 1 and t[3] == 0 for t in polish):
-        return "KF-C10-B"                             # a0 = 0, refine, non-finite raised in a polishing call
-    if any(t[0] == 2 for t in tr):
-        return "KF-C10-A"                             # an Exhausted laguer exit
-    if kind == "backward-error" and any(t[0] == 0 and t[4] == 0 for t in tr):
-        return "KF-C10-E"                             # a convergence test |p(x)| <= err passed with err = inf (|z|^2 overflow in Complex::abs)
+    polish = tr[n:] if n >= 4 else tr                 # degree >= 4: the n deflation calls come first
+    # the laguer calls that produced the offending root k: deflation call n-1-k (degree >= 4), polishing call k
+    mine = []
+    if root is not None:
+        if n >= 4: mine.append(tr[n - 1 - root])
+        if refine and root < len(polish): mine.append(polish[root])
+    tiny = lambda z: 0 < abs(z) < 2.0 ** -30
+    # KF-C10-B: a0 = 0, refine, a polishing call entered with a tiny nonzero estimate of the root 0 and either
+    #           left it non-finite or carried it away to another root
+    if refine and coeffs[0] == 0 and kind in ("non-finite", "matching"):
+        for t in polish:
+            if t[2] == 1 and tiny(t[5]):
+                if kind == "non-finite" and t[3] == 0: return "KF-C10-B"
+                if kind == "matching" and t[3] == 1 and t[0] != 2 and t[1] >= 2: return "KF-C10-B"
+    # KF-C10-A: a laguer call that was entered with a finite iterate fell out of its loop (Exhausted)
+    if any(t[0] == 2 and t[2] == 1 for t in tr):
+        return "KF-C10-A"
+    # KF-C10-E: the convergence test |p(x)| <= err of a call that produced the offending root passed with err = inf
+    if kind == "backward-error" and any(t[0] == 0 and t[4] == 0 for t in mine):
+        return "KF-C10-E"
+    # KF-C10-F: degree 3, the closed form itself (before any polishing) is inaccurate or non-finite and the model
+    #           shows one of the two cancellations of the Cardano path
+    if n == 3 and (cancels[0] == 1 or cancels[1] == 1):
+        if kind == "backward-error" and not refine: return "KF-C10-F"
+        if kind == "non-finite" and (not refine or (root is not None and polish[root][2] == 0)): return "KF-C10-F"
+    # KF-C10-C: unpolished deflation drift: degree >= 4, every call converged / stalled with finite values
     if kind == "backward-error" and (not refine) and n >= 4 and all(t[0] in (0, 1) for t in tr) and all(t[3] == 1 for t in tr):
-        return "KF-C10-C"                             # unpolished deflation drift: every call converged / stalled
+        return "KF-C10-C"
     return None
 
 def finding_key(case, desc, items):
     if items is None: return None
-    kind = FAILS.get(case.line)
-    if kind is None: return None
-    return classify(case, items, kind)
+    kr = FAILS.get(case.line)
+    if kr is None: return None
+    return classify(case, items, kr[0], kr[1])
